@@ -8,7 +8,7 @@ META = dict(
     functions=['data_dump.DATADump.dump_msg', 'data_dump.DATADump.parse_hdr', 'data_dump.DATADumpFile._seek2msg', 'data_dump.DATADumpFile._parse_msg',
                'data_dump.DATADumpFile.parse_msg', 'data_dump.DATADumpFile.parse_all', 'data_dump.DATADumpFile.append_msg', 'data_dump.DATADumpFile.append_all',
                'data_msg.*.gen_msg / parse_msg (as in C01)'],
-    bounds=dict(quick='sequences of 1..3 messages over the kinds {Tx v0 148, Tx v1 444, Rx v0 148, Rx v1 NOPE, Rx v1 GMSK} (all sequences of length <= 2, sampled of length 3), every field and bit symbolic; indices 0..len+1; skip in {None,0..len+1}, count in {None,1..len+1}; '
+    bounds=dict(sequences='every sequence of three reads (10 read operations: random access 0..3, full read, skip/count slices) through one reader object on a file of three messages; the same message object appended twice with all fields and burst bits rewritten in place in between', quick='sequences of 1..3 messages over the kinds {Tx v0 148, Tx v1 444, Rx v0 148, Rx v1 NOPE, Rx v1 GMSK} (all sequences of length <= 2, sampled of length 3), every field and bit symbolic; indices 0..len+1; skip in {None,0..len+1}, count in {None,1..len+1}; '
                       'truncation: every cut offset inside the record header, the TRXD header and at +-2 of each record boundary, plus every 25th offset',
                 thorough='all kinds incl. every modulation; all sequences of length <= 3; every byte offset as truncation point'),
     stubs=['file object proxy with io.BytesIO semantics (read/seek/write)', 'struct.pack/unpack', 'buffer proxies', 'logging'],
@@ -46,6 +46,11 @@ def jobs(tier, seed):
     out = []
     for s in seqs:
         out.append(('rw.' + '+'.join(s), 'h_rw', dict(seq=s)))
+    # one reader object, every order of reads
+    for part in range(4):
+        out.append(('read-sequences.%d' % part, 'h_reads', dict(part=part, parts=4)))
+    for kind in ('rx1g', 'rx0', 'tx0', 'tx1'):
+        out.append(('reappend.' + kind, 'h_reappend', dict(kind=kind)))
     # truncation
     tseqs = [[a] for a in kinds] + ([[a, b] for a in kinds[:3] for b in kinds[:3]] if tier == 'quick' else [[a, b] for a in kinds for b in kinds[:5]])
     tseqs += [tri[0], tri[-1]] if tier == 'quick' else rnd.sample(tri, 20)
@@ -127,6 +132,66 @@ def h_rw(ctx, seq):
                 if (skip or 0) > n - 1 and (g is False or g == []): continue     # statement silent: [] or False
                 if (skip or 0) >= n and g is False: continue
                 list_eq(ctx, 'slice(%s,%s)' % (skip, count), g, want, T)
+
+
+READ_OPS = [('msg', 0), ('msg', 1), ('msg', 2), ('msg', 3), ('all', None, None), ('all', None, 1), ('all', 1, None), ('all', 1, 1), ('all', 2, None), ('all', 0, 2)]
+
+
+def h_reads(ctx, part, parts):
+    """what a read returns does not depend on the reads made before it through the same DATADumpFile object:
+    every sequence of three reads out of READ_OPS on a file of three messages"""
+    T = env.load(ctx, 'data_msg', 'data_dump')
+    env.std_env(ctx, T)
+    seq = ['rx1n', 'rx1n', 'rx1n']
+    with env.symbolic(ctx):
+        msgs = mk_msgs(ctx, T, seq)
+        f = new_file(ctx)
+        writer = T.data_dump.DATADumpFile(f)          # kept alive: the object closes its file when collected
+        writer.append_all(msgs)
+        content = file_items(f)
+        def want(op):
+            if op[0] == 'msg': return msgs[op[1]] if op[1] < 3 else None
+            w = msgs[(op[1] or 0):]
+            return w[:op[2]] if op[2] is not None else w
+        k = -1; keep = []
+        for a in READ_OPS:
+            for b in READ_OPS:
+                k += 1
+                if k % parts != part: continue
+                for c in READ_OPS:
+                    ddf = T.data_dump.DATADumpFile(new_file(ctx, content)); keep.append(ddf)
+                    for pos, op in enumerate((a, b, c)):
+                        name = '%s>%s>%s#%d' % (a[1:], b[1:], c[1:], pos)
+                        with ctx.no_raise(name + ':no-exception'):
+                            g = ddf.parse_msg(op[1]) if op[0] == 'msg' else ddf.parse_all(skip=op[1], count=op[2])
+                        w = want(op)
+                        if op[0] == 'msg':
+                            if w is None: ctx.check(name + '.none', g is None, got=repr(g))
+                            else: msg_eq(ctx, name, g, w, T)
+                        else: list_eq(ctx, name, g, w, T)
+
+
+def h_reappend(ctx, kind):
+    """the same message object appended twice, modified in place in between (how burst_gen and trx_sniff reuse one object):
+    each record holds the content the object had when it was appended"""
+    T = env.load(ctx, 'data_msg', 'data_dump')
+    env.std_env(ctx, T)
+    with env.symbolic(ctx):
+        m1, m2, m = mk_msgs(ctx, T, [kind, kind, kind])         # m: the reused object (its own initial content is overwritten below)
+        k, p = KINDS[kind]
+        fields = ['fn', 'tn'] + (['pwr'] if k == 'tx' else ['rssi', 'toa256'] + (['ci', 'tsc', 'tsc_set'] if p['ver'] >= 1 else []))
+        for fl in fields: setattr(m, fl, getattr(m1, fl))
+        for i in range(len(m.burst)): m.burst[i] = m1.burst[i]
+        f = new_file(ctx)
+        ddf = T.data_dump.DATADumpFile(f)
+        with ctx.no_raise('append:no-exception'):
+            ddf.append_msg(m)
+            for fl in fields: setattr(m, fl, getattr(m2, fl))
+            for i in range(len(m.burst)): m.burst[i] = m2.burst[i]          # same burst object, new content
+            ddf.append_msg(m)
+        with ctx.no_raise('parse_all:no-exception'):
+            got = ddf.parse_all()
+        list_eq(ctx, 'all', got, [m1, m2], T)
 
 
 def h_cut(ctx, seq, cuts):
